@@ -250,15 +250,29 @@ BodyMethods == {"POST", "PUT", "PATCH"}
 (* the command the ENGINE attaches to a failure (code sample built from the recorder), for a failure on the case's own request   *)
 (* and for failures on requests a check derived from it (ignored_auth probes: credential header removed / overridden); the      *)
 (* string is the value of a configured non-credential header that every one of these requests carries                            *)
-EngineSlots == {"engine-own", "engine-removed", "engine-overridden", "engine-cookie"}    \* engine-cookie: configured Cookie header + generated cookie parameter
+(* ... and scenarios with a HISTORY of failures inside one test case: two checks fail and they concern different requests (first a  *)
+(* check fails on the case's own request, then ignored_auth fails on the probe it derived - "engine-after-removed" /             *)
+(* "engine-after-overridden" - or the other way round - "engine-removed-then-own").  Every recorded failure carries its own      *)
+(* command: the one judged is the command of the LATER failure against the request recorded for ITS case id.                     *)
+EngineHistorySlots == {"engine-after-removed", "engine-after-overridden", "engine-removed-then-own"}
+EngineSlots == {"engine-own", "engine-removed", "engine-overridden", "engine-cookie"} \cup EngineHistorySlots   \* engine-cookie: configured Cookie header + generated cookie parameter
+(* history on ONE case object (render, change in place, render): the case is first sent and printed with Prior(e) in the slot,   *)
+(* then the slot is changed in place to the string, the case is sent again and printed again with the headers of the request     *)
+(* that was sent now (for query / path these are equal to the first request's; the body keeps its length so that Content-Length  *)
+(* stays equal too).  The command printed last must re-send the request sent last: the property speaks about the request, not     *)
+(* about the object it was made from.                                                                                             *)
+HistorySlots == {"again-query", "again-path", "again-cookie", "again-body"}
+HistoryBase(sl) == CASE sl = "again-query" -> "query" [] sl = "again-path" -> "path" [] sl = "again-cookie" -> "cookie" [] sl = "again-body" -> "body" [] OTHER -> sl
+Fill(n) == [i \in 1..n |-> 98]                                   \* "b" * n: never a string of the family unless n = 0
+Prior(e) == IF e.slot \notin HistorySlots THEN <<>> ELSE IF e.slot = "again-body" THEN Fill(Len(e.s)) ELSE Fill(Len(e.s) + 1)
 Elements(n, lm) == {[slot |-> sl, s |-> s, m |-> "-"] : sl \in Slots, s \in Strs(n)}
                      \cup {[slot |-> sl, s |-> s, m |-> "-"] : sl \in {"header", "body"}, s \in [1..lm -> Alphabet]}
                      \cup {[slot |-> sl, s |-> <<>>, m |-> mm] : sl \in EmptySlots, mm \in BodyMethods}
-                     \cup {[slot |-> sl, s |-> s, m |-> "-"] : sl \in EngineSlots, s \in Strs(1)}
+                     \cup {[slot |-> sl, s |-> s, m |-> "-"] : sl \in EngineSlots \cup HistorySlots, s \in Strs(1)}
 (* field values: no CR / LF, no leading or trailing blanks (RFC 7230 3.2); path values are non-empty *)
-InFragment(e) == CASE e.slot \in {"header", "cookie", "auth", "api-header"} \cup EngineSlots \cup CookieHistorySlots -> /\ \A i \in 1..Len(e.s) : e.s[i] # cNL
+InFragment(e) == CASE e.slot \in {"header", "cookie", "auth", "api-header", "again-cookie"} \cup EngineSlots \cup CookieHistorySlots -> /\ \A i \in 1..Len(e.s) : e.s[i] # cNL
                                                                /\ (e.s = <<>> \/ (~IsSpace(e.s[1]) /\ ~IsSpace(e.s[Len(e.s)])))
-                   [] e.slot \in {"path", "base-slash"} -> e.s # <<>>
+                   [] e.slot \in {"path", "base-slash", "again-path"} -> e.s # <<>>
                    [] OTHER -> TRUE
 (* the abstract request of an element (what the driver builds for real); URL data is percent-encoded except the           *)
 (* sub-delimiters requests leaves alone, which is what puts quotes, '$', ';' and '&' into the URL word                      *)
@@ -302,8 +316,16 @@ Next == UNCHANGED el
 Spec == Init /\ [][Next]_el
 
 (* design invariants *)
-TypeOK == el.slot \in Slots \cup EmptySlots \cup EngineSlots
+TypeOK == el.slot \in Slots \cup EmptySlots \cup EngineSlots \cup HistorySlots
 ModelledSlots == BaseSlots \cup EmptySlots
+(* the history dimension discriminates: for the modelled slots the faithful command of the FIRST rendering (the case with Prior in   *)
+(* the slot) is refuted by the oracle for the request sent after the change, and the faithful command of the changed case is accepted *)
+Now(e) == [e EXCEPT !.slot = HistoryBase(e.slot)]
+Before(e) == [e EXCEPT !.slot = HistoryBase(e.slot), !.s = Prior(e)]
+StaleRefuted == (el.slot \in HistorySlots /\ HistoryBase(el.slot) \in ModelledSlots /\ InFragment(el)) =>
+                   /\ CmdVerdict(RefCmd(Now(el)), ReqOf(Now(el)), "exact").v = "T"
+                   /\ (Prior(el) # el.s) => CmdVerdict(RefCmd(Before(el)), ReqOf(Now(el)), "exact").v = "F"
+                   /\ ReqOf(Before(el)).headers = ReqOf(Now(el)).headers /\ Len(ReqOf(Before(el)).body) = Len(ReqOf(Now(el)).body)
 (* "curl -d sends the form Content-Type by itself": leaving that header out of the command is faithful exactly when there is   *)
 (* data to pass to -d - with an empty payload nothing re-creates it                                                          *)
 CmdWithoutCT(e) == LET r == ReqOf(e) IN
@@ -315,6 +337,6 @@ RefFaithful == (el.slot \in ModelledSlots /\ InFragment(el)) => CmdVerdict(RefCm
 NaivePitfalls == (el.slot \in ModelledSlots /\ InFragment(el)) =>
                     ((CmdVerdict(NaiveCmd(el), ReqOf(el), "exact").v = "T")
                        <=> ~((el.slot = "header" /\ el.s = <<>>) \/ (el.slot = "body" /\ el.s # <<>> /\ Head(el.s) = cAT)))
-Export == PrintT(<<"CASE", ToJson([slot |-> el.slot, s |-> el.s, m |-> el.m, fragment |-> InFragment(el),
+Export == PrintT(<<"CASE", ToJson([slot |-> el.slot, s |-> el.s, m |-> el.m, fragment |-> InFragment(el), prior |-> Prior(el),
                                    ref |-> IF el.slot \in ModelledSlots THEN RefCmd(el) ELSE <<>>])>>)
 =============================================================================
